@@ -58,6 +58,7 @@ def main():
     tier = a[-1] if a and a[-1] in ("quick", "thorough") else "quick"
     have = {p.stem for p in (HERE.parent / "rvmon" / "props").glob("C*.py")}
     bad = 0
+    results = []
     for mid, prop, file, old, new in M:
         if which != "all" and which != mid and which != prop:
             continue
@@ -69,6 +70,13 @@ def main():
         ok = res[2].startswith(expect) or res[2].startswith("SKIP")
         bad += not ok
         print(f"{'ok  ' if ok else 'MISS'} {res[0]} {res[1]} {res[2]} ({res[3]:.1f}s)", flush=True)
+        st = res[2].split(" ", 1)
+        results.append({"id": mid, "property": prop, "status": st[0] + (" (equivalent / property-preserving: must stay silent)" if mid in EQUIV else ""),
+                        "rules": st[1] if len(st) > 1 else "", "as_expected": bool(ok)})
+    if which == "all" and not prop_override:
+        import json
+
+        (HERE / "catalogue_results.json").write_text(json.dumps(results, indent=1) + "\n")
     sys.exit(1 if bad else 0)
 
 
